@@ -529,6 +529,9 @@ func runUnit(u unit, thorough bool) *unitResult {
 	n := 0
 	for bi, base := range e.Sess {
 		full := bi == 0 || (thorough && base.V.Held)
+		if sh.Long && bi != 0 {
+			continue
+		}
 		if u.Side == "client" && !full {
 			continue // only the clients of these sessions are re-dialled; they receive everything
 		}
@@ -547,7 +550,10 @@ func runUnit(u unit, thorough bool) *unitResult {
 				harness.Fatal("build %v: %v", o, err)
 			}
 			ms := modes
-			if u.Side == "server" {
+			if sh.Long {
+				ms = []string{"r-big"}
+			}
+			if u.Side == "server" && !sh.Long {
 				// no byte is read through the tunnel unless the handshake is
 				// intact, so the reader mode only matters then
 				b := e.baseFor("server", base, T)
@@ -613,6 +619,9 @@ func unitsFor(thorough bool) []unit {
 		for _, sh := range shapes {
 			if sh.Thor && !thorough {
 				continue
+			}
+			if sh.Long && (c.EIH || c.Prefix || c.Fallback || c.Seg) {
+				continue // the long-session swap sweep runs on the two plain configurations (one per cipher)
 			}
 			if c.Seg && !thorough && sh.Name != "basic3" && sh.Name != "tiny2" {
 				continue // quick: segmented-header configurations on the two small shapes only
